@@ -71,6 +71,7 @@ type C14Case struct {
 	B      KeySpec  `json:"b"`
 	BF     uint     `json:"bf,omitempty"`
 	Golden string   `json:"golden,omitempty"` // section:index of the golden file
+	Tree   *HistCase `json:"tree,omitempty"`  // mode "tree": a generated history whose persisted nodes are compared with the reference encoder
 }
 
 var intTypes = []string{"int", "int8", "int16", "int32", "int64"}
@@ -130,7 +131,13 @@ func genKeySpec(t *rapid.T, typ string, bf uint) KeySpec {
 var allKeyTypes = append(append(append([]string{}, intTypes...), uintTypes...), "string", "bytes", "struct")
 
 func genC14(t *rapid.T, tier string) C14Case {
-	c := C14Case{Mode: rapid.SampledFrom([]string{"layer", "layer", "compare"}).Draw(t, "mode")}
+	c := C14Case{Mode: rapid.SampledFrom([]string{"layer", "layer", "layer", "compare", "compare", "tree"}).Draw(t, "mode")}
+	if c.Mode == "tree" {
+		h := genHist(t, tier, core.GenOpts{NoCustomV1: true, Caches: []string{"none", "big"}},
+			core.OpWeights{core.OpInsert: 10, core.OpInsertNew: 20, core.OpUpdate: 5, core.OpDelete: 10, core.OpPersist: 6, core.OpReload: 2}, 25, 40, 30, 1)
+		c.Tree = &h
+		return c
+	}
 	c.BF = rapid.SampledFrom([]uint{2, 3, 4, 5, 7, 10, 16, 64, 255}).Draw(t, "bf")
 	ta := rapid.SampledFrom(allKeyTypes).Draw(t, "ta")
 	c.A = genKeySpec(t, ta, c.BF)
@@ -577,6 +584,9 @@ func runC14(c C14Case, o *run.Obs) error {
 	if c.Mode == "golden" {
 		return runGolden(c.Golden, o)
 	}
+	if c.Mode == "tree" && c.Tree != nil {
+		return runC14Tree(*c.Tree, o)
+	}
 	layer := mast.DefaultLayer(json.Marshal)
 	cmp := mast.DefaultKeyCompare(json.Marshal)
 	a := c.A.Value()
@@ -638,3 +648,60 @@ func init() {
 }
 
 var _ = sort.Ints
+
+// runC14Tree: every node a generated history persists must be byte-identical to what the
+// independent reference encoder produces for the same entries (published format), and the
+// root must be the reference root.
+func runC14Tree(h HistCase, o *run.Obs) error {
+	mixed := false
+	check := func(w *core.World, sr *core.SavedRoot) error {
+		want, nodes := w.RefRoot(sr.Model)
+		got := core.RootOf(sr.Root)
+		if got.Link != want.Link {
+			// shape differences are C04/C09's subject; here only the encoding of identical shapes is compared
+			if got.Height != want.Height || got.Size != want.Size {
+				o.Label("shape-differs(C04)")
+				return nil
+			}
+		}
+		for name, b := range nodes {
+			have, ok := w.Store.Peek(name)
+			if !ok {
+				if got.Link == want.Link {
+					return fmt.Errorf("[%s] node %s of the reference encoding is not in the store although the root names agree", h.Cfg, name)
+				}
+				return fmt.Errorf("[%s] version with entries %s (height %d): the published encoding gives a node %s (%d bytes) that was not written; root is %q, reference root %q", h.Cfg, w.DescribeModel(sr.Model), got.Height, name, len(b), got.Link, want.Link)
+			}
+			if !bytes.Equal(have, b) {
+				return fmt.Errorf("[%s] node %s: stored bytes differ from the published encoding", h.Cfg, name)
+			}
+			if n, err := h.Cfg.DecodeNode(b); err == nil && len(n.Keys) >= 2 && n.HasChild() {
+				for _, l := range n.Links {
+					if l == "" {
+						mixed = true
+					}
+				}
+			}
+		}
+		return nil
+	}
+	m, err := runHist(h, o, 1, func(w *core.World, m *core.Machine) {
+		m.OnPersist = func(si int, t *core.Tree, sr *core.SavedRoot) error { return check(w, sr) }
+	}, nil)
+	if err != nil || m == nil {
+		return err
+	}
+	sr, err := m.W.Persist(m.Slots[0])
+	if err != nil {
+		o.Label("aborted:base-failure")
+		return nil
+	}
+	if err := check(m.W, sr); err != nil {
+		return err
+	}
+	o.NonTrivial = mixed
+	o.Label("mode=tree")
+	o.Labelf("val=%s", h.Cfg.Val)
+	o.Labelf("format=%s", h.Cfg.Format)
+	return nil
+}
